@@ -12,9 +12,9 @@ LEVEL = "exploration"
 RULE = (
     "Hypothesis generates project recipes: project fields within their documented widths, 0..8 (quick) / 0..24 (thorough) modules of any of the "
     "42 attachable types built as in C02 (attached through attach_module / += / += [list]), connect/disconnect operations, patterns / clones / "
-    "empty pattern slots with note cells (thorough: a few patterns of up to 32 tracks x 2048 lines), Unicode names (incl. names whose UTF-8 form straddles byte 32), MetaModules with embedded projects, "
+    "empty pattern slots with note cells (thorough: a few patterns of up to 32 tracks x 2048 lines), Unicode names (incl. names whose UTF-8 form straddles byte 32), MetaModules with embedded projects (a dedicated family nests them 2-4 levels deep), "
     "Samplers with samples; a second family blanks generated module positions in the saved bytes, reloads and continues (interior empty "
-    "positions, gap filling); half of the cases continue on the same, already saved project with more API calls (new modules, edits of existing modules, links, patterns, fields) and are saved and compared again. Oracle: bytes load without error, snapshot(loaded) == snapshot(original), module index/parent and pattern owner "
+    "positions, gap filling); half of the cases continue on the same, already saved project with more API calls (new modules, edits of existing modules, links, patterns, fields) and are saved and compared again. Oracle: write_to(stream) == read(), loading from a str path / pathlib.Path == loading from a stream, bytes load without error, snapshot(loaded) == snapshot(original), module index/parent and pattern owner "
     "identities hold, and re-saving the loaded project is stable from the second generation on. distinct = recipe hash; non-trivial = >= 2 non-Output modules, or a "
     "non-default controller/option/payload, or a pattern with a non-empty cell, or a long name"
 )
